@@ -73,6 +73,7 @@ static std::string cls(int base, bool upper, const char *vclass)
 }
 
 // ---------------------------------------------------------------- the to_* members and their libc oracles
+static const int NOBASE = -12345;  // call the overload with its base argument left to the default (documented: 0, as strtol)
 struct Parser {
     const char *name;
     int bits;
@@ -83,7 +84,10 @@ struct Parser {
 #define PARSER(NAME, BITS, SIGNED, TYPE, CFN)                                                                      \
     {                                                                                                              \
         #NAME, BITS, SIGNED,                                                                                       \
-            [](const ST::string &s, int b, ST::conversion_result *r) -> __int128 { return r ? s.NAME(*r, b) : s.NAME(b); }, \
+            [](const ST::string &s, int b, ST::conversion_result *r) -> __int128 {                                 \
+                if (b == NOBASE) return r ? s.NAME(*r) : s.NAME();                                                 \
+                return r ? s.NAME(*r, b) : s.NAME(b);                                                              \
+            },                                                                                                     \
             [](const char *p, char **e, int b) -> __int128 { return static_cast<TYPE>(CFN(p, e, b)); }            \
     }
 static const Parser PARSERS[] = {
@@ -135,6 +139,26 @@ static void check_from_and_back(Ctx &c, T v, int base, bool upper)
             else s64 = ST::string::from_uint64((uint64_t)v, base, upper);
             VF_COUNT("ops");
             cmp_text(c, route, s64, want, k, strf("from_%sint64(%s, %d)", sgn ? "" : "u", i128s(v).c_str(), base));
+        }
+        // trailing arguments left to their defaults: upper_case = false, base = 10
+        if (!upper) {
+            ST::string sd;
+            if constexpr (std::is_signed<T>::value) sd = ST::string::from_int(v, base);
+            else sd = ST::string::from_uint(v, base);
+            VF_COUNT("ops");
+            cmp_text(c, route, sd, want, k + ":upper_case-omitted", strf("%s(%s %s, %d)", route, TI<T>::name(), i128s(v).c_str(), base));
+            if (base == 10) {
+                if constexpr (std::is_signed<T>::value) sd = ST::string::from_int(v);
+                else sd = ST::string::from_uint(v);
+                VF_COUNT("ops");
+                cmp_text(c, route, sd, want, k + ":base-omitted", strf("%s(%s %s)", route, TI<T>::name(), i128s(v).c_str()));
+                if (std::is_same<T, long>::value || std::is_same<T, unsigned long>::value) {
+                    if constexpr (std::is_signed<T>::value) sd = ST::string::from_int64((int64_t)v);
+                    else sd = ST::string::from_uint64((uint64_t)v);
+                    VF_COUNT("ops");
+                    cmp_text(c, route, sd, want, k + ":base-omitted", strf("from_%sint64(%s)", sgn ? "" : "u", i128s(v).c_str()));
+                }
+            }
         }
         // parse the canonical text back with every member wide enough to hold every value of T
         ST::string text = ST::string::from_validated(want.data(), want.size());
@@ -457,6 +481,24 @@ static void check_parse(Ctx &c, const std::string &bytes, const std::vector<int>
     vf::Outcome o = vf::guard([&] {
         ST::string text = ST::string::from_validated(bytes.data(), bytes.size());
         bool any_consumed = false;
+        // the base argument left out: must behave as base 0 (prefix decides, as strtol)
+        for (int i = 0; i < NPARSERS; ++i) {
+            const Parser &P = PARSERS[i];
+            char *end = nullptr;
+            errno = 0;
+            __int128 want = P.libc(bytes.c_str(), &end, 0);
+            size_t consumed = (size_t)(end - bytes.c_str());
+            bool want_ok = bytes.empty() ? false : consumed > 0, want_full = bytes.empty() ? true : consumed == bytes.size();
+            ST::conversion_result r;
+            __int128 got = P.lib(text, NOBASE, &r), got2 = P.lib(text, NOBASE, nullptr);
+            VF_ADD("ops", 2);
+            VF_COUNT("validated");
+            if (got != want || got2 != want || r.ok() != want_ok || r.full_match() != want_full)
+                c.fail(strf("parse:%s:base-argument-omitted:differs-from-base-0", P.name),
+                       strf("%s(result) / %s() on %s returned %s / %s, ok=%d full_match=%d; strtol-family with base 0 returns %s, consumed %zu of %zu bytes",
+                            P.name, P.name, vf::vis(bytes).c_str(), i128s(got).c_str(), i128s(got2).c_str(), r.ok(), r.full_match(), i128s(want).c_str(),
+                            consumed, bytes.size()));
+        }
         for (int base : bases) {
             for (int i = 0; i < NPARSERS; ++i) {
                 const Parser &P = PARSERS[i];
